@@ -51,12 +51,13 @@ template <typename C> static std::string text_of(C const& c)
 
 // integrand shapes
 // s_gap (not part of the shape loops): ordinary, except that the second iteration of the run yields zeros only
-enum shape { s_ordinary = 0, s_zero, s_const, s_zero_mean, s_nonfinite, s_negative, s_count, s_gap = s_count, s_gap0, s_cancel0, s_const01, s_inf0 };
+enum shape { s_ordinary = 0, s_zero, s_const, s_zero_mean, s_nonfinite, s_negative, s_count, s_gap = s_count, s_gap0, s_cancel0, s_const01, s_inf0, s_onehit };
 static thread_local long alt_calls = 0; // evaluations of this rank in the current run
 static thread_local int iter_no = 0; // callbacks seen by this rank in the current run
+static thread_local int last_hit_iter = -1; // (shape onehit) the iteration whose single non-zero evaluation has been handed out
 static char const* shape_name(int s)
 {
-    static char const* n[] = {"ordinary", "zero", "const", "zero_mean", "nonfinite", "negative", "gap", "gap0", "cancel0", "const01", "inf0"};
+    static char const* n[] = {"ordinary", "zero", "const", "zero_mean", "nonfinite", "negative", "gap", "gap0", "cancel0", "const01", "inf0", "onehit"};
     return n[s];
 }
 template <typename T> static T shape_value(int s, T x)
@@ -70,6 +71,8 @@ template <typename T> static T shape_value(int s, T x)
     case s_cancel0: return iter_no == 0 ? (alt_calls++ % 2 ? T(-0.125) : T(0.125)) : x * x + T(0.1);
     // every non-zero value of the first iteration is infinite: that result has non-zero calls, the estimate 0 and the variance 0
     case s_inf0: return iter_no == 0 ? (x < T(0.5) ? std::numeric_limits<T>::infinity() : T()) : x * x + T(0.1);
+    // exactly one non-zero evaluation per iteration (the first one): a result like any other, with a relative error of almost one
+    case s_onehit: if (last_hit_iter != iter_no) { last_hit_iter = iter_no; return T(3); } return T();
     case s_const: return T(2);
     case s_const01: return T(0.1);   // a constant that is not a short binary fraction: the sample variance is zero up to rounding (of either sign)
     case s_zero_mean: return x < T(0.5) ? T(1) : T(-1);
@@ -99,9 +102,13 @@ template <typename T> struct plain_k
     typedef hep::default_plain_chkpt<T> chk;
     static char const* name() { return "plain"; }
     static chk fresh(int) { return hep::make_plain_chkpt<T>(); }
-    template <typename CB> static chk run(int s, int, chk const& c, std::vector<std::size_t> const& calls, CB cb)
+    // variant >= 1: the integrand books a histogram; variant 2: ... but the checkpoint the run is continued from was produced without it
+    static int pre_variant(int variant) { return variant == 2 ? 0 : variant; }
+    template <typename CB> static chk run(int s, int variant, chk const& c, std::vector<std::size_t> const& calls, CB cb)
     {
         auto f = [s](hep::mc_point<T> const& p) { return eval<T>(s, p.point()[0]); };
+        auto fd = [s](hep::mc_point<T> const& p, hep::projector<T>& pr) { T v = eval<T>(s, p.point()[0]); pr.add(0, p.point()[0], v); return v; };
+        if (variant >= 1) return hep::plain(hep::make_integrand<T>(fd, 1, hep::make_dist_params<T>(5, T(), T(1), "x")), calls, c, cb);
         return hep::plain(hep::make_integrand<T>(f, 1), calls, c, cb);
     }
     template <typename CB> static chk mpi_run(MPI_Comm comm, int s, int, chk const& c, std::vector<std::size_t> const& calls, CB cb)
@@ -115,9 +122,12 @@ template <typename T> struct vegas_k
     typedef hep::default_vegas_chkpt<T> chk;
     static char const* name() { return "vegas"; }
     static chk fresh(int) { return hep::make_vegas_chkpt<T>(8, T(1.5)); }
-    template <typename CB> static chk run(int s, int, chk const& c, std::vector<std::size_t> const& calls, CB cb)
+    static int pre_variant(int variant) { return variant == 2 ? 0 : variant; }
+    template <typename CB> static chk run(int s, int variant, chk const& c, std::vector<std::size_t> const& calls, CB cb)
     {
         auto f = [s](hep::vegas_point<T> const& p) { return eval<T>(s, p.point()[0]); };
+        auto fd = [s](hep::vegas_point<T> const& p, hep::projector<T>& pr) { T v = eval<T>(s, p.point()[0]); pr.add(0, p.point()[0], v); return v; };
+        if (variant >= 1) return hep::vegas(hep::make_integrand<T>(fd, 1, hep::make_dist_params<T>(5, T(), T(1), "x")), calls, c, cb);
         return hep::vegas(hep::make_integrand<T>(f, 1), calls, c, cb);
     }
     template <typename CB> static chk mpi_run(MPI_Comm comm, int s, int, chk const& c, std::vector<std::size_t> const& calls, CB cb)
@@ -143,6 +153,7 @@ template <typename T> struct mc_k
 {
     typedef hep::default_multi_channel_chkpt<T> chk;
     static char const* name() { return "mc"; }
+    static int pre_variant(int variant) { return variant; }
     static chk fresh(int variant)
     {
         std::vector<T> w;
@@ -276,7 +287,7 @@ static void c12_run(rng& g, int shp, int variant, int world, bool builtin, doubl
     if (resumed)
     {
         // a checkpoint that already holds two results (produced silently, not part of the trace)
-        start = K::run(s_ordinary, variant, start, std::vector<std::size_t>{pre_calls, pre_calls}, hep::callback<C>(hep::callback_mode::silent));
+        start = K::run(s_ordinary, K::pre_variant(variant), start, std::vector<std::size_t>{pre_calls, pre_calls}, hep::callback<C>(hep::callback_mode::silent));
         n0 = start.results().size();
     }
     ev("Run").i("run", run_id++).s("kind", K::name()).s("T", type_name<T>::get()).s("shape", shape_name(shp)).a("plan", plan).i("n0", (long long) n0)
@@ -286,7 +297,7 @@ static void c12_run(rng& g, int shp, int variant, int world, bool builtin, doubl
     if (world == 0)
     {
         clog_.on = true; clog_.rank = 0;
-        iter_no = 0; alt_calls = 0;
+        iter_no = 0; alt_calls = 0; last_hit_iter = -1;
         C r = start;
         int count = 0;
         if (builtin) r = K::run(shp, variant, start, plan, observed_builtin<T, C>{hep::callback<C>(m, file, T(target)), T(target), 0});
@@ -414,6 +425,14 @@ template <typename T> static void c12_family(rng& g, bool thorough)
     // error 0.12) after two and 0.12 +- 0.008 (0.065) after three iterations - a target of 0.085 is reached at the third callback
     c12_run<plain_k<T>, T>(g, s_cancel0, 0, 0, true, 0.085, 0, false, (int) g.below(4));
     c12_run<vegas_k<T>, T>(g, s_cancel0, 0, 0, true, 0.085, 0, false, 0);
+    // one non-zero evaluation per iteration (200 calls): every result is 0.015 +- 0.015, the combination of k of them has a relative error of
+    // 0.9975 / sqrt(k) - a target of 0.6 is reached at the third callback
+    c12_run<plain_k<T>, T>(g, s_onehit, 0, 0, true, 0.6, 0, false, (int) g.below(4));
+    c12_run<plain_k<T>, T>(g, s_onehit, 1, 0, true, 0.45, 0, false, 0);
+    // a checkpoint produced without histograms, continued with an integrand that books one (with and without a target)
+    c12_run<plain_k<T>, T>(g, s_ordinary, 2, 0, true, 0.0, 0, true, (int) g.below(4), 50);
+    c12_run<vegas_k<T>, T>(g, s_ordinary, 2, 0, true, 0.03, 0, true, 0, 200);
+    c12_run<plain_k<T>, T>(g, s_ordinary, 1, 0, true, 0.04, 0, true, 0, 200);
     // first iteration: infinite values only - the combination stays undefined, no target is ever reached
     c12_run<plain_k<T>, T>(g, s_inf0, 0, 0, true, 0.04, 0, false, (int) g.below(4));
     c12_run<vegas_k<T>, T>(g, s_inf0, 0, 2, true, 0.04, 0, false, 0);
